@@ -1211,9 +1211,9 @@ def _rolling_sum_or_mean_1d(
     # Track rolling sums and circular buffers for each group
     group_sums = np.zeros(ngroups)
     group_buffers = np.full((ngroups, window), null_value)
-    group_positions = np.zeros(ngroups, dtype=np.int16)
-    group_non_null = np.zeros(ngroups, dtype=np.int16)
-    group_n_seen = np.zeros(ngroups, dtype=np.int16)
+    group_positions = np.zeros(ngroups, dtype=np.int64)
+    group_non_null = np.zeros(ngroups, dtype=np.int64)
+    group_n_seen = np.zeros(ngroups, dtype=np.int64)
     i = -1
 
     for arr in values:
@@ -1410,11 +1410,11 @@ def _rolling_max_or_min_1d(
 
     # Track rolling max/min and its position in circular buffers for each group
     current_best = np.full(ngroups, null_value)
-    pos_of_current_best = np.zeros(ngroups, dtype=np.int16)
+    pos_of_current_best = np.zeros(ngroups, dtype=np.int64)
     group_buffers = np.full((ngroups, window), null_value)
-    group_buffer_pos = np.zeros(ngroups, dtype=np.int16)
-    group_non_null = np.zeros(ngroups, dtype=np.int16)
-    group_n_seen = np.zeros(ngroups, dtype=np.int16)
+    group_buffer_pos = np.zeros(ngroups, dtype=np.int64)
+    group_non_null = np.zeros(ngroups, dtype=np.int64)
+    group_n_seen = np.zeros(ngroups, dtype=np.int64)
 
     i = -1
     for arr in values:
@@ -1568,8 +1568,8 @@ def _rolling_shift_or_diff_1d(
 
     # Track rolling sums and circular buffers for each group
     group_buffers = np.full((ngroups, window), null_value)
-    group_buffer_pos = np.zeros(ngroups, dtype=np.int16)
-    group_counts = np.zeros(ngroups, dtype=np.int16)
+    group_buffer_pos = np.zeros(ngroups, dtype=np.int64)
+    group_counts = np.zeros(ngroups, dtype=np.int64)
 
     i = -1
     for arr in values:
